@@ -589,4 +589,4 @@ def replay(ctx, path):
         msg = oracle(d['transport'], d['entry'], d['timeout'], d['pattern'], r)
         print(r['outcome'], r['elapsed'], msg)
         return 1 if msg else 0
-    return 1
+    return None      # no dedicated replay for this kind of case: check.py re-runs the check with the recorded seed
